@@ -277,13 +277,14 @@ type specRep struct {
 	nmsgs               int
 	accepted, total     int
 	noExt, ends, strict bool
+	abs                 string // messages under the "extended field is absolute" reading (= msgs when "=")
 	raw                 string
 }
 
 func specChunk(c *h.Ctx, trS string) specRep {
 	rep := c.O.Call("rtmp.spec.chunk", trS)
 	f := strings.Split(rep, " ")
-	if len(f) != 6 {
+	if len(f) != 7 {
 		panic("rtmp.spec.chunk: bad reply " + h.Trunc(rep, 200) + " for " + h.Trunc(trS, 300))
 	}
 	var s specRep
@@ -295,6 +296,10 @@ func specChunk(c *h.Ctx, trS string) specRep {
 	}
 	fmt.Sscanf(f[2], "%d/%d", &s.accepted, &s.total)
 	s.noExt, s.ends, s.strict = f[3] == "1", f[4] == "1", f[5] == "1"
+	s.abs = f[6]
+	if s.abs == "=" {
+		s.abs = s.msgs
+	}
 	return s
 }
 
@@ -335,8 +340,13 @@ func runConformant(c *h.Ctx, bucket string, g *gsender, mode int) specRep {
 		// the known deviation is confined to the timestamps: everything else must still be the spec's
 		c.Hold(maskTs(got) == maskTs(s.msgs) && status == "err-eof", "decode.extts_delta.rest", in,
 			h.Trunc(status+" "+maskTs(got), 600), h.Trunc("err-eof "+maskTs(s.msgs), 600))
+		// ... and the timestamps are exactly those of the "extended field is an absolute time" reading
+		// (Props.C02.C02_reader_is_absext_variant)
+		c.Hold(got == s.abs && status == "err-eof", "decode.extts_delta.absext", in,
+			h.Trunc(status+" "+got, 600), h.Trunc("err-eof "+s.abs, 600))
 	}
 	if s.noExt {
+		c.Eq("spec.absext_coincides", in, s.msgs, s.abs)
 		// the reader has followed every Set Chunk Size
 		c.Hold(int(inChunk) == g.chunk, "decode.chunksize", in, fmt.Sprint(inChunk), fmt.Sprint(g.chunk))
 	}
